@@ -31,4 +31,10 @@ LimitCalls ==
   \cup { [fn |-> "WriteFixedStringList", a |-> [vals |-> <<>>, count |-> n, elem |-> <<66>>, n |-> 1, pw |-> 1, le |-> le]] : n \in {255, 256}, le \in BOOLEAN }
 
 AllCalls == FixedCalls \cup ListCalls \cup StrCalls \cup LimitCalls
+
+(* thorough tier: widths 0..4, every text of length <= 5 over 4 symbols, 6 pads, both sides (98,280 more calls) *)
+BigFixedCalls ==
+  { [fn |-> "WriteFixedStringWithPadding", a |-> [s |-> s, n |-> n, pad |-> pad, left |-> left]] :
+      n \in 0..4, pad \in Pads, left \in BOOLEAN, s \in Texts({0, 65, 195, 255}, 5) }
+AllCallsThorough == AllCalls \cup BigFixedCalls
 =============================================================================
